@@ -19,16 +19,17 @@ RULE = ('(a) Complete enumeration of every full k-mer for k in {5,7,9,11}, in u6
         'self-complementary arms) and random k-mers.  (c) Sliding: every window produced by get_next_kmer over random sequences '
         'with N/n, lower case and quality strings (reads mode, three quality rules) equals the one computed from scratch on '
         'that window alone (k-mer, middle, orientation flag, middle position, hash), and both equal the string model and the '
-        'Python ntHash.  Slices of (a)-(c) are repeated under Miri and on an overflow-checked harness.  Non-trivial: a checked '
+        'Python ntHash.  Slices of (a)-(c) are repeated under Miri and on an overflow-checked harness.  (d) A use site of the command line on both sides of the width boundary: the k-mer multiplicities behind `ska build --min-count auto -k K` (printed table, cutoff, the dictionary it then builds) against `ska cov -k K` on the same reads, K in {21,29,31,33,35,41,51,63}.  Non-trivial: a checked '
         'k-mer / window; distinct counted per (k, width, k-mer) for enumerations and per (k, width, sequence) for sliding.')
 ASSUMPTIONS = ['the string-level reference in harness/src/main.rs (module reference) and vlib/model.py state the specification',
                'an overflow panic on the checked build is a diagnostic; the functional comparison on the release build decides']
 REQUIRED = {t: ['enum_kmers_checked', 'structured_kmers_checked', 'random_kmers_checked', 'windows_checked', 'hashes_checked',
-                'miri_kmers_checked', 'chk_kmers_checked', 'windows_after_N_restart', 'quality_restarts'] for t in ('quick', 'thorough')}
+                'miri_kmers_checked', 'chk_kmers_checked', 'windows_after_N_restart', 'quality_restarts',
+                'cli_use_sites_128bit', 'cli_use_sites_64bit'] for t in ('quick', 'thorough')}
 
 
 def builds(tier):
-    return ['harness', 'harness-chk']
+    return ['rel', 'harness', 'harness-chk']
 
 
 def widths(k):
@@ -57,6 +58,9 @@ def plan(tier, seed, rng, scale):
         for w in widths(k):
             descs.append({'kind': 'miri', 'k': k, 'w': w, 'seed': rng.getrandbits(31)})
     descs.append({'kind': 'miri-roll', 'seed': rng.getrandbits(32)})
+    for i in range(int((16 if tier == 'quick' else 60) * max(scale, 0.25))):
+        # the width chosen at a use site of the command line: k on both sides of the 64/128-bit boundary
+        descs.append({'kind': 'cli-auto', 'k': [31, 33, 41, 63, 29, 35, 51, 21][i % 8], 'rc': i % 3 != 0, 'seed': rng.getrandbits(32)})
     return descs
 
 
@@ -167,6 +171,16 @@ def run_case(desc, ctx):
     res = Result()
     kind = desc['kind']
     H = ctx.bins['harness']
+    if kind == 'cli-auto':
+        # sliding and packing as used by `ska build --min-count auto`: its k-mer multiplicities (printed table, cutoff) must be
+        # those of `ska cov` at the same k, and the build must obey that count - for k <= 31 and k >= 33 alike
+        from . import c12
+        c12.run_auto(desc, ctx, res)
+        if desc['k'] > 31:
+            res.count('cli_use_sites_128bit', res.counters.get('auto_mincount_builds', 0))
+        else:
+            res.count('cli_use_sites_64bit', res.counters.get('auto_mincount_builds', 0))
+        return res
     if kind in ('enum', 'structured', 'random', 'chk'):
         k, w = desc['k'], desc['w']
         binary = H
